@@ -1,6 +1,6 @@
 //! C18: rename is meaning-preserving and never crashes the server (real oal-lsp + oal-cli).
 
-use super::c17::{cfg, write_workspace};
+use super::c17::write_workspace;
 use super::common::*;
 use super::{Acc, Ctx};
 use crate::drive::cli::{run_cli, write_sources, TempDir};
@@ -15,6 +15,15 @@ use serde_json::{json, Value};
 
 pub struct Renames {
     pub n: u64,
+}
+
+/// C17's shape without imports that share a qualifier: renaming such a qualifier is the open finding
+/// c18-rename-shared-qualifier (replayed by its witness on every run).
+pub fn cfg() -> crate::gen::wt::Cfg {
+    crate::gen::wt::Cfg {
+        shadow_pct: 0,
+        ..super::c17::cfg()
+    }
 }
 
 fn compile_doc(src: &Sources, tag: &str) -> Result<Value, String> {
@@ -350,6 +359,7 @@ pub fn run(ctx: &Ctx) -> i32 {
         n: if ctx.quick() { 400 } else { 10_000 },
     };
     acc.pool(&wl, "c18", true);
+    acc.witnesses();
     for k in ["renamed:use-of-declaration", "renamed:declaration-name"] {
         if acc.stats.get(k) == 0 {
             acc.inconclusive.push(format!("binder kind never reached: {k}"));
